@@ -272,7 +272,8 @@ def main():
     lines.append("  [" + ";\n   ".join(f"({cstr(n)}, ({cstr(t)}, {clist(cstr(f) for f in fl)}))" for n, t, fl in pats) + "].")
     lines.append("")
     text = "\n".join(lines)
-    out_path.write_text(text)
+    if not out_path.exists() or out_path.read_text() != text:      # an unchanged table keeps its time stamp (make)
+        out_path.write_text(text)
     print(f"wrote {out_path}: {len(branches)} branches, {len(pats)} patterns")
 
 
